@@ -1,7 +1,9 @@
 """C14 — nothing received from the network or the admin port can crash the relay.
 
 TLC enumerates abstract histories over the admin/TOML command space and the malformed-stream classes
-(spec/AdminOps.tla, AdminGen.tla); the Go driver (harness/adm) renders each history to concrete command
+(spec/AdminOps.tla, AdminGen.tla), including rewriters / aggregations whose result is a degenerate metric name
+(empty, white space, dots, very long) behind connected plain / pickle=true / grafanaNet routes together with
+traffic those rules match; the Go driver (harness/adm) renders each history to concrete command
 text / TOML / bytes (seeded random inside each class), applies it to a real table with started routes in
 child processes and records what happened; TLC validates the recorded trace against the reference
 machine (spec/AdminTrace.tla): a `crash` event is not in the range of any action, the real table must
@@ -248,10 +250,12 @@ def run(ctx):
     rps = [e for e in events if e["ev"] == "rulepump"]
     emptied = [e for e in rps if e["pk"] and e["online"] and e["bad_pickle"] > 0 and any(r["val"] == "emptyexp" for r in e["rules"])]
     aggd = [e for e in rps if e["agg_out"] > 0]
+    pkbytes = [e for e in rps if e["pk"] and e["online"] and e["sink_bytes"] > 0]
     unreached = [e["h"] for e in rps if not e["reached"]]
     ctx.cov["degenerate_name_histories"] = dict(
         rule_traffic_pumped=len(rps), empty_name_to_connected_pickle_dest=len(emptied), aggregation_flushed=len(aggd),
-        not_handled_within_deadline=len(unreached),
+        sink_of_pickle_route_received_bytes=len(pkbytes),
+        aggregation_not_flushed_within_deadline=len(unreached),
         by_class={k: sum(1 for e in rps if any(r["val"] == k for r in e["rules"])) for k in NAMECLASSES})
     if not crashes_ev:
         if not emptied:
@@ -259,11 +263,14 @@ def run(ctx):
                             "(%d histories pumped rule-matching traffic)" % len(rps))
         if not aggd:
             raise Machinery("vacuous run: no degenerate-name aggregation was flushed into the table")
+        if not pkbytes:
+            raise Machinery("vacuous run: no sink of a route with pickle=true destinations received anything during the rule traffic")
         if len(unreached) > max(2, len(rps) // 5):
-            raise Machinery("%d of %d histories: the destinations did not deal with the rule-matching traffic within the "
-                            "deadline (overloaded machine?): %s" % (len(unreached), len(rps), unreached[:10]))
+            raise Machinery("%d of %d histories: the degenerate-name aggregation did not flush the rule-matching traffic "
+                            "within the deadline (overloaded machine?): %s" % (len(unreached), len(rps), unreached[:10]))
     for h in unreached[:5]:
-        ctx.note("history %d: no destination counter moved for the rule-matching traffic within the deadline %s" % (
+        ctx.note("history %d: the degenerate-name aggregation flushed nothing within the deadline (traffic blocked by an "
+                 "earlier command of the history?) %s" % (
             h, [describe(c) for c in cases[h]["cmds"]]))
 
     # TLC decides
